@@ -51,7 +51,7 @@ class Exhausted(Exception):
 # path context
 
 class Ctx:
-    def __init__(self, decisions=(), timeout_ms=2000, max_branches=400):
+    def __init__(self, decisions=(), timeout_ms=5000, max_branches=400):
         self.decisions = list(decisions)
         self.trace = []
         self.pc = []
